@@ -172,6 +172,9 @@ pub fn fn_event(k: u64, d: &[u8], with_cfg: bool) -> Value {
     if let Ok(r) = catch(|| codec::vp9::is_vp9_keyframe(d)) {
         m.insert("vp9key".into(), json!(match r { Ok(true) => "key", Ok(false) => "notkey", Err(_) => "err" }));
     }
+    if let Ok(b) = catch(|| codec::vp9::is_valid_vp9_frame(d)) {
+        m.insert("vp9valid".into(), json!(b));
+    }
     if let Ok(b) = catch(|| codec::opus::is_valid_opus_packet(d)) {
         m.insert("opusvalid".into(), json!(b));
     }
